@@ -17,6 +17,7 @@ from litex.soc.integration.builder import Builder
 from litex.soc.integration import export
 from litex.soc.integration.common import get_mem_data
 from litex.soc.interconnect import wishbone
+from litex.soc.integration.soc import SoCError
 from litex.soc.interconnect.csr import CSRField, CSRStorage, CSRStatus, AutoCSR
 from litex.soc.interconnect.csr_eventmanager import EventManager, EventSourcePulse
 from litex.soc.cores import cpu as cpu_mod
@@ -38,11 +39,13 @@ ASSUMPTIONS = ["migen tracer shim (names only)", "the bus master is a 32-bit Wis
                "csr_read_simple/csr_write_simple are 32-bit accesses at the given address (hw/common.h)", "ctrl_reset is not written (it resets the SoC)"]
 FLOORS = {"quick": {"registers_replayed": 600, "accessor_reads": 600, "accessor_writes": 300, "socs_built": 40, "mem_region_words_checked": 200,
                     "cross_format_entries_compared": 2000, "image_bytes_checked": 12000, "registers_wider_than_64_bits": 40, "interrupts_raised_and_located": 40,
-                    "fields_located": 250, "field_accessor_writes_replayed": 120},
+                    "fields_located": 250, "field_accessor_writes_replayed": 120,
+                    "other_memories_checked_after_region_write": 400, "extra_ram_requests_inside_a_neighbours_window_refused": 6},
           "thorough": {"registers_replayed": 9000, "accessor_reads": 9000, "accessor_writes": 4500, "socs_built": 600,
                        "mem_region_words_checked": 3000, "cross_format_entries_compared": 30000, "image_bytes_checked": 300000,
                        "registers_wider_than_64_bits": 600, "interrupts_raised_and_located": 500,
-                       "fields_located": 4000, "field_accessor_writes_replayed": 2000}}
+                       "fields_located": 4000, "field_accessor_writes_replayed": 2000,
+                       "other_memories_checked_after_region_write": 6000, "extra_ram_requests_inside_a_neighbours_window_refused": 90}}
 SHARD_TIMEOUT = {"quick": 1500, "thorough": 3400}
 N_SAMPLES = 2
 
@@ -146,6 +149,29 @@ def build_soc(case, rng, specs, init_files):
               csr_data_width=case["csr_dw"], csr_ordering=case["ordering"], csr_paging=case["paging"],
               bus_standard=case["standard"], bus_data_width=case["bus_dw"], bus_interconnect=case["interconnect"], bus_timeout=128)
     soc = SoCCore(plat, 1e6, **kw)
+    # extra RAMs of sizes that are not powers of two, each requested right behind the previous one's declared end, i.e. inside the
+    # previous one's decoded (power-of-two) window: LiteX has to refuse that request (the harness then asks for the next free
+    # aligned place). A region accepted there answers together with its neighbour, which the memory-region replay sees.
+    soc.extra_rams = []
+    soc.extra_ram_refusals = 0
+    if rng.random() < 0.6:
+        nxt = 0x20000000
+        for i in range(rng.choice([2, 2, 3])):
+            name = "xram%d" % i
+            size = rng.choice([0x140, 0x180, 0x300, 0x500, 0x600, 0x200])
+            p2 = 1 << (size - 1).bit_length()
+            nxt = (nxt + p2 - 1) & ~(p2 - 1)          # aligned on its own decoded size (anything else is refused at finalize anyway)
+            try:
+                soc.add_ram(name, origin=nxt, size=size)
+            except SoCError:
+                env.restore_stderr()
+                soc.extra_ram_refusals += 1
+                for d_ in (soc.bus.slaves, soc.bus.regions):
+                    d_.pop(name, None)
+                nxt = (nxt + 0xfff) & ~0xfff
+                soc.add_ram(name, origin=nxt, size=size)
+            soc.extra_rams.append(name)
+            nxt = soc.bus.regions[name].origin + size
     objs = {}
     for sp in specs:
         class Per(Module, AutoCSR):
@@ -361,9 +387,11 @@ def run_soc(case):
     busword = case["csr_dw"]
     sim_errs = []
     mems = {}
-    for name in ("rom", "sram", "main_ram"):
+    for name in ["rom", "sram", "main_ram"] + list(getattr(soc, "extra_rams", [])):
         if name in js["memories"] and hasattr(soc, name):
             mems[name] = getattr(soc, name).mem
+        elif name.startswith("xram"):
+            sim_errs.append({"kind": "memory-region-not-published", "memory": name})
 
     def script():
         # registers
@@ -548,6 +576,7 @@ def run_soc(case):
                 st["memw"] += 1
                 if name != "rom":
                     val = rng.getrandbits(32) | 1
+                    others_before = yield ("call", lambda s, name=name: {n: mem_all(s.bench, m_) for n, m_ in mems.items() if n != name})
                     res = yield ("write", (reg["base"] + byte_off) >> 2, val)
                     if res.get("hung") or res["err"]:
                         sim_errs.append({"kind": "memory-region-write-not-acknowledged", "memory": name, "offset": byte_off})
@@ -557,6 +586,14 @@ def run_soc(case):
                     if (got >> (32 * lane)) & 0xffffffff != val:
                         sim_errs.append({"kind": "memory-region-maps-elsewhere", "memory": name, "published": reg, "offset": byte_off,
                                          "written": hex(val), "memory_word": hex(got)})
+                        break
+                    others_after = yield ("call", lambda s, name=name: {n: mem_all(s.bench, m_) for n, m_ in mems.items() if n != name})
+                    st["mem_others"] = st.get("mem_others", 0) + len(others_after)
+                    ch = [n for n in others_after if others_after[n] != others_before[n]]
+                    if ch:
+                        sim_errs.append({"kind": "memory-region-write-changed-another-memory", "memory": name, "published": reg,
+                                         "offset": byte_off, "also_changed": ch,
+                                         "their_regions": {n: js["memories"][n] for n in ch}})
                         break
                 res = yield ("read", (reg["base"] + byte_off) >> 2)
                 if res.get("hung"):
@@ -578,6 +615,11 @@ def run_soc(case):
                     sim_errs.append({"kind": "rom-image-byte-at-wrong-address-or-lane", "address": a, "expected": hex(exp_),
                                      "read": hex(res["dat_r"]) if res["dat_r"] is not None else None})
                     break
+
+    def mem_all(bench, mem):
+        arr = bench.sim.evaluator.replaced_memories.get(mem)
+        sv = bench.sim.evaluator.signal_values
+        return tuple(sv.get(x, x.reset.value) for x in arr) if arr is not None else None
 
     def mem_word(bench, mem, k):
         arr = bench.sim.evaluator.replaced_memories.get(mem)
@@ -602,6 +644,7 @@ def run_soc(case):
     if not ok and not sim_errs:
         sim_errs.append({"kind": "harness-cycle-cap"})
     return {"errs": (errs + sim_errs)[:4], "st": st, "cycles": bench.cycle["sys"], "nregs": len(js["csr_registers"]),
+            "xram_refusals": getattr(soc, "extra_ram_refusals", 0),
             "sample": {"csr_bases": js["csr_bases"], "memories": js["memories"],
                        "some_registers": dict(list(js["csr_registers"].items())[:4])}}
 
@@ -652,6 +695,8 @@ def run_shard(shard):
         col.ev("accessor_reads", st["reads"])
         col.ev("registers_wider_than_64_bits", st.get("wide", 0))
         col.ev("fields_located", st.get("fields", 0))
+        col.ev("other_memories_checked_after_region_write", st.get("mem_others", 0))
+        col.ev("extra_ram_requests_inside_a_neighbours_window_refused", r.get("xram_refusals", 0))
         col.ev("field_accessor_writes_replayed", st.get("field_writes", 0))
         col.ev("interrupts_raised_and_located", st.get("irqs", 0))
         col.ev("accessor_writes", st["writes"])
